@@ -211,7 +211,7 @@ def _rxn_on_copy(r, method, warm=False):
         for m in c.molecules():
             _warm(m)
     res = getattr(c, method)()
-    return [res if isinstance(res, (bool, int)) else None, str(c), format(c, 'm')]
+    return [res if isinstance(res, (bool, int)) else None, str(c), format(c, 'm'), format(c, '!c')]
 
 
 RXN_OBSERVERS = {
